@@ -5,6 +5,7 @@ import (
 	_ "verif/internal/c01"
 	_ "verif/internal/c07"
 	_ "verif/internal/c12"
+	_ "verif/internal/c16"
 	_ "verif/internal/c17"
 	_ "verif/internal/c18"
 	_ "verif/internal/c19"
